@@ -26,6 +26,10 @@ type tarInput struct {
 	Tree model.Tree `json:"tree"`
 	Exc  []string   `json:"exc"`
 	Inc  []string   `json:"inc"`
+	// Twice: the same FS value has been exported once before the export that is judged
+	Twice bool `json:"twice,omitempty"`
+	// Bare: an unfiltered view is exported as NewFS returns it (no WithHardlinkReset around it)
+	Bare bool `json:"bare,omitempty"`
 }
 
 func parseOctal(b []byte) (int64, bool) {
@@ -139,7 +143,9 @@ func runTar(c *Ctx, caseNo int, in tarInput) (vt.Ev, error) {
 			return nil, nil
 		}
 	}
-	f = fsutil.WithHardlinkReset(f)
+	if !(in.Bare && len(in.Exc)+len(in.Inc) == 0) {
+		f = fsutil.WithHardlinkReset(f)
+	}
 	// the view: what the walk of this FS reports, with the bytes its Open yields
 	var view []vt.Ev
 	werr := f.Walk(context.Background(), "/", func(p string, d gofs.DirEntry, err error) error {
@@ -175,6 +181,10 @@ func runTar(c *Ctx, caseNo int, in tarInput) (vt.Ev, error) {
 		return nil, werr
 	}
 	var buf bytes.Buffer
+	if in.Twice {
+		// the same FS value exported before: nothing of that export may leak into this one
+		fsutil.WriteTar(context.Background(), f, io.Discard)
+	}
 	terr := fsutil.WriteTar(context.Background(), f, &buf)
 	raw := buf.Bytes()
 	members := []vt.Ev{}
@@ -230,12 +240,43 @@ func runTar(c *Ctx, caseNo int, in tarInput) (vt.Ev, error) {
 	if view == nil {
 		view = []vt.Ev{}
 	}
-	ev := vt.Ev{"ev": "Tar", "case": caseNo, "view": view, "members": members, "eofClean": eofClean, "rawWalkOK": rok, "rawNames": rawNames,
+	// a destination writer that fails at some offset (every position of the archive tail included): WriteTar must say so
+	swallowed := []int{}
+	if terr == nil && len(raw) > 0 {
+		offs := []int{len(raw) - 1, len(raw) - 512, len(raw) - 1023, len(raw) - 1024, len(raw) - 1025, len(raw) / 2, 0}
+		for _, at := range offs {
+			if at < 0 {
+				continue
+			}
+			fw := &failingWriter{left: at}
+			if err := fsutil.WriteTar(context.Background(), f, fw); err == nil && fw.failed {
+				swallowed = append(swallowed, at)
+			}
+		}
+	}
+	ev := vt.Ev{"ev": "Tar", "case": caseNo, "view": view, "members": members, "eofClean": eofClean, "rawWalkOK": rok, "rawNames": rawNames, "writeErrorsSwallowedAt": swallowed,
 		"writeErr": terr != nil, "extractedOK": extractedOK, "extracted": xev, "bytes": len(raw), "input": vt.Opaque(in)}
 	if terr != nil {
 		ev["err"] = trunc(terr.Error())
 	}
 	return ev, nil
+}
+
+// failingWriter accepts left bytes and fails from then on.
+type failingWriter struct {
+	left   int
+	failed bool
+}
+
+func (w *failingWriter) Write(b []byte) (int, error) {
+	if len(b) <= w.left {
+		w.left -= len(b)
+		return len(b), nil
+	}
+	n := w.left
+	w.left = 0
+	w.failed = true
+	return n, fmt.Errorf("injected write error")
 }
 
 // Tar drives fsutil.WriteTar (C17).
@@ -263,7 +304,7 @@ func Tar(c *Ctx) error {
 	o := genOpts{MaxEntries: 30, Special: true, Xattrs: true, Links: true, BigFiles: true, LongNames: true}
 	for i := 0; i < n; i++ {
 		t := RandomTree(c.Rand, o)
-		in := tarInput{Tree: t}
+		in := tarInput{Tree: t, Twice: i%2 == 0, Bare: i%4 < 2}
 		switch c.Rand.Intn(5) {
 		case 0:
 			in.Exc = []string{[]string{"a", "a*", "*/b", "**/a0"}[c.Rand.Intn(4)]}
